@@ -58,7 +58,7 @@ impl Sub for RevComp {
         "DNA count matrix (width 0..30, any content incl. wildcard counts) x strand-symmetric pseudocounts and background x arbitrary scoring matrix (finite / -inf cells, finite wildcard column) x DNA sequence (L 0..300); (i) rc(rc(X)) == X exactly and rc(X) == the mirrored model for count, frequency, weight and scoring matrices; (ii) rc commutes with to_freq / to_weight / to_scoring (tol 1e-5); (iii) score_rc[L-M-i] on rc(seq) == score[i] on seq within the summation bound, through the generic scorer and the dispatcher forced to an arm; non-trivial = M >= 2 and rc(X) != X"
     }
     fn cases(&self, tier: Tier) -> u64 {
-        tier.pick(12_000, 500_000)
+        tier.pick(60_000, 1_500_000)
     }
     fn strategy(&self, _tier: Tier) -> BoxedStrategy<Case> {
         (
